@@ -16,6 +16,7 @@ import (
 	"fmt"
 	"hash/fnv"
 	"os"
+	"sort"
 	"strconv"
 	"strings"
 	"sync"
@@ -295,6 +296,7 @@ func reportRaces(c *vf.Ctx, rs []vf.RaceReport) {
 		for i := range ow {
 			ow[i] = stripGenerics(ow[i])
 		}
+		sort.Strings(ow)
 		key := strings.Join(ow, " <-> ")
 		raceMu.Lock()
 		dup := raceSeen[key]
@@ -331,6 +333,20 @@ func childDied(c *vf.Ctx, what string, res vf.ChildResult) {
 	c.Inconclusive(fmt.Sprintf("%s did not finish (timeout=%v exit=%d %s) at %s", what, res.TimedOut, res.ExitCode, res.Fatal, res.LastMark))
 }
 
+// runChild retries a child whose process could not even be started (fork/exec
+// failure on a loaded machine); nothing about a verdict depends on it.
+func runChild(c *vf.Ctx, o vf.ChildOpts) vf.ChildResult {
+	var res vf.ChildResult
+	for try := 0; try < 4; try++ {
+		res = c.RunChild(o)
+		if !(res.ExitCode == -1 && strings.HasPrefix(res.Fatal, "start:")) {
+			break
+		}
+		time.Sleep(time.Duration(try+1) * 500 * time.Millisecond)
+	}
+	return res
+}
+
 func trunc(s string, n int) string {
 	if len(s) > n {
 		return s[:n]
@@ -349,15 +365,15 @@ func run(c *vf.Ctx) {
 		switch r.Mode {
 		case "script":
 			b, _ := json.Marshal(r.Script)
-			res = c.RunChild(vf.ChildOpts{Name: "script1", Args: []string{string(b)}, Timeout: time.Minute})
+			res = runChild(c, vf.ChildOpts{Name: "script1", Args: []string{string(b)}, Timeout: time.Minute})
 		case "wait":
 			b, _ := json.Marshal(r.Wait)
-			res = c.RunChild(vf.ChildOpts{Name: "wait1", Args: []string{string(b)}, Timeout: time.Minute})
+			res = runChild(c, vf.ChildOpts{Name: "wait1", Args: []string{string(b)}, Timeout: time.Minute})
 		case "stress":
 			b, _ := json.Marshal(r.Stress)
-			res = c.RunChild(vf.ChildOpts{Name: "stress1", Args: []string{string(b)}, Timeout: 3 * time.Minute})
+			res = runChild(c, vf.ChildOpts{Name: "stress1", Args: []string{string(b)}, Timeout: 3 * time.Minute})
 		case "race":
-			res = c.RunChild(vf.ChildOpts{Name: "stress", Args: []string{"0", "80", "race"}, Race: true, Timeout: 5 * time.Minute})
+			res = runChild(c, vf.ChildOpts{Name: "stress", Args: []string{"0", "80", "race"}, Race: true, Timeout: 5 * time.Minute})
 			reportRaces(c, res.Races)
 		}
 		if res.TimedOut {
@@ -388,11 +404,11 @@ func run(c *vf.Ctx) {
 	for k := 0; k < nChunks; k++ {
 		k := k
 		spawn(func() {
-			finish(fmt.Sprintf("script child %d/%d", k, nChunks), c.RunChild(vf.ChildOpts{Name: "scripts", Args: []string{strconv.Itoa(k), strconv.Itoa(nChunks), "plain"}, Timeout: 12 * time.Minute}))
+			finish(fmt.Sprintf("script child %d/%d", k, nChunks), runChild(c, vf.ChildOpts{Name: "scripts", Args: []string{strconv.Itoa(k), strconv.Itoa(nChunks), "plain"}, Timeout: 12 * time.Minute}))
 		})
 		if k%4 == 0 {
 			spawn(func() {
-				finish(fmt.Sprintf("script child %d/%d (race)", k, nChunks), c.RunChild(vf.ChildOpts{Name: "scripts", Args: []string{strconv.Itoa(k), strconv.Itoa(nChunks), "race"}, Race: true, Timeout: 14 * time.Minute}))
+				finish(fmt.Sprintf("script child %d/%d (race)", k, nChunks), runChild(c, vf.ChildOpts{Name: "scripts", Args: []string{strconv.Itoa(k), strconv.Itoa(nChunks), "race"}, Race: true, Timeout: 14 * time.Minute}))
 			})
 		}
 	}
@@ -402,11 +418,11 @@ func run(c *vf.Ctx) {
 	for lo := 0; lo < wl; lo += per {
 		lo := lo
 		spawn(func() {
-			finish(fmt.Sprintf("wait child [%d..)", lo), c.RunChild(vf.ChildOpts{Name: "waits", Args: []string{strconv.Itoa(lo), strconv.Itoa(lo + per), "plain"}, Timeout: 8 * time.Minute}))
+			finish(fmt.Sprintf("wait child [%d..)", lo), runChild(c, vf.ChildOpts{Name: "waits", Args: []string{strconv.Itoa(lo), strconv.Itoa(lo + per), "plain"}, Timeout: 8 * time.Minute}))
 		})
 	}
 	spawn(func() { // the special and not-held scenarios and a slice of the random ones under -race
-		finish("wait child (race)", c.RunChild(vf.ChildOpts{Name: "waits", Args: []string{"0", strconv.Itoa(c.Pick(300, 3000)), "race"}, Race: true, Timeout: 8 * time.Minute}))
+		finish("wait child (race)", runChild(c, vf.ChildOpts{Name: "waits", Args: []string{"0", strconv.Itoa(c.Pick(300, 3000)), "race"}, Race: true, Timeout: 8 * time.Minute}))
 	})
 	// ---- stress
 	stress := func(n, per int, race bool) {
@@ -417,7 +433,7 @@ func run(c *vf.Ctx) {
 				if race {
 					mode = "race"
 				}
-				finish(fmt.Sprintf("stress child [%d..) %s", lo, mode), c.RunChild(vf.ChildOpts{Name: "stress", Args: []string{strconv.Itoa(lo), strconv.Itoa(min(lo+per, n)), mode}, Race: race, Timeout: 10 * time.Minute}))
+				finish(fmt.Sprintf("stress child [%d..) %s", lo, mode), runChild(c, vf.ChildOpts{Name: "stress", Args: []string{strconv.Itoa(lo), strconv.Itoa(min(lo+per, n)), mode}, Race: race, Timeout: 10 * time.Minute}))
 			})
 		}
 	}
